@@ -1,33 +1,49 @@
 #!/bin/bash
-# tools/regress_mutants.sh [ids...]  -- re-runs every seeded change against the current harness
-# in a scratch copy (/tmp/mutrun: worktree of /repo + copy of the harness), so that /repo and
-# /verif/target stay untouched. Writes /verif/seeded/<id>/results.json.
+# tools/regress_mutants.sh [-j K] [-t tier] [ids or property prefixes...]
+# Re-runs seeded changes against the current harness in scratch copies (/tmp/mutrun<k>: a git
+# worktree of /repo + a copy of the harness + its own target directory), so that /repo and
+# /verif/target stay untouched. Appends the observed result to /verif/seeded/<id>/meta.json ("ran").
+# The scratch copies are removed at the end (-k keeps them).
 set -u
 HERE=/verif
-W=/tmp/mutrun
-IDS="${@:-C01 C02 C03 C04 C05 C06 C07 C08 C09 C10 C11 C12 C13 C14 C15 C16 C17 C18 C19 C20}"
-if [ ! -d $W/repo ]; then mkdir -p $W; git -C /repo worktree add --detach $W/repo HEAD -q; fi
-rsync -a --exclude target $HERE/harness/ $W/harness/
-sed -i 's#path = "/repo"#path = "/tmp/mutrun/repo"#' $W/harness/Cargo.toml
-sed -i 's#/verif/target#/tmp/mutrun/target#' $W/harness/.cargo/config.toml
-for ID in $IDS; do
-  RES="$HERE/seeded/$ID/results.json"
-  echo "[" > "$RES.tmp"; first=1
-  for P in $HERE/seeded/$ID/m*.diff; do
-    M=$(basename "$P" .diff)
-    git -C $W/repo checkout -q -- . ; git -C $W/repo apply "$P" || { echo "patch $P does not apply"; continue; }
-    OUT=$W/out/$ID-$M; rm -rf $OUT; mkdir -p $OUT/evidence $OUT/replays $OUT/scratch; cp $HERE/known_findings.json $OUT/
-    ( cd $W/harness && CARGO_NET_OFFLINE=true cargo build --offline -q 2>$OUT/build.log )
-    if [ $? -ne 0 ]; then verdict="build-failed"; rc=2; sigs="[]"; else
-      VERIF_DIR=$OUT RUST_BACKTRACE=0 timeout -k 20 1500 $W/target/debug/umv $ID --tier quick --seed ${VERIF_SEED:-1} > $OUT/out.log 2>&1; rc=$?
-      sigs=$(grep -E "violation signature=" $OUT/out.log | sed 's/.*signature=\([^ ]*\) .*/\1/' | sort | uniq -c | sort -rn | head -6 | awk '{printf "%s{\"signature\":\"%s\",\"times\":%s}", (NR>1?",":""), $2, $1}' | sed 's/^/[/; s/$/]/')
-      [ -z "$sigs" ] && sigs="[]"
-      if [ $rc -eq 1 ]; then verdict="caught"; elif [ $rc -eq 0 ]; then verdict="missed"; else verdict="inconclusive(exit $rc)"; fi
-    fi
-    [ $first -eq 0 ] && echo "," >> "$RES.tmp"; first=0
-    echo "{\"mutant\":\"$M\",\"check\":\"./check $ID quick\",\"seed\":${VERIF_SEED:-1},\"exit\":$rc,\"verdict\":\"$verdict\",\"top_signatures\":$sigs}" >> "$RES.tmp"
-    echo "REGRESS $ID $M $verdict"
-  done
-  echo "]" >> "$RES.tmp"; mv "$RES.tmp" "$RES"
+J=4; TIER=quick; KEEP=0
+while getopts "j:t:k" o; do case $o in j) J=$OPTARG;; t) TIER=$OPTARG;; k) KEEP=1;; esac; done
+shift $((OPTIND-1))
+SEL="${@:-C}"
+IDS=""
+for s in $SEL; do for d in $HERE/seeded/$s*/; do [ -f "$d/patch.diff" ] && IDS="$IDS $(basename $d)"; done; done
+IDS=$(echo $IDS | tr ' ' '\n' | sort -u)
+echo "regressing: $(echo $IDS | wc -w) changes, $J workers, tier $TIER"
+for k in $(seq 1 $J); do
+  W=/tmp/mutrun$k
+  if [ ! -d $W/repo ]; then mkdir -p $W; git -C /repo worktree add --detach $W/repo HEAD -q || exit 3; fi
+  git -C $W/repo checkout -q --detach "$(git -C /repo rev-parse HEAD)"
+  rsync -a --delete --exclude target $HERE/harness/ $W/harness/
+  sed -i "s#path = \"/repo\"#path = \"$W/repo\"#" $W/harness/Cargo.toml
+  sed -i "s#/verif/target#$W/target#" $W/harness/.cargo/config.toml
+  if [ ! -d $W/target ] && [ -d $HERE/target ]; then cp -a $HERE/target $W/target; fi
 done
-git -C $W/repo checkout -q -- .
+export HERE TIER
+worker() {
+  k=$1; shift
+  W=/tmp/mutrun$k
+  for ID in "$@"; do
+    P=$HERE/seeded/$ID/patch.diff
+    PROP=$(python3 -c "import json;print(json.load(open('$HERE/seeded/$ID/meta.json'))['breaks_property'])")
+    git -C $W/repo checkout -q -- . ; git -C $W/repo clean -fdq
+    if ! git -C $W/repo apply "$P" 2>/dev/null; then echo "REGRESS $ID patch-does-not-apply"; python3 $HERE/tools/record_ran.py $ID "$PROP" $TIER ${VERIF_SEED:-1} 3 /dev/null; continue; fi
+    OUT=$W/out/$ID; rm -rf $OUT; mkdir -p $OUT/evidence $OUT/replays $OUT/scratch; cp $HERE/known_findings.json $OUT/
+    if ! ( cd $W/harness && CARGO_NET_OFFLINE=true cargo build --offline -q 2>$OUT/build.log ); then
+      rc=4
+    else
+      VERIF_DIR=$OUT RUST_BACKTRACE=0 timeout -k 20 3000 $W/target/debug/umv $PROP --tier $TIER --seed ${VERIF_SEED:-1} > $OUT/out.log 2>&1; rc=$?
+    fi
+    python3 $HERE/tools/record_ran.py $ID "$PROP" $TIER ${VERIF_SEED:-1} $rc $OUT/out.log
+  done
+  git -C $W/repo checkout -q -- . ; git -C $W/repo clean -fdq
+}
+i=0; declare -a BUCKET
+for ID in $IDS; do k=$(( i % J + 1 )); BUCKET[$k]="${BUCKET[$k]:-} $ID"; i=$((i+1)); done
+for k in $(seq 1 $J); do worker $k ${BUCKET[$k]:-} & done
+wait
+if [ $KEEP -eq 0 ]; then for k in $(seq 1 $J); do git -C /repo worktree remove --force /tmp/mutrun$k/repo; rm -rf /tmp/mutrun$k; done; fi
